@@ -119,6 +119,9 @@ def pn_implicants(pn, name):
     return up, down
 
 
+SELFTEST = {"on": False}
+
+
 def check_translation(rules_text, label):
     """returns (n_functions, n_queries, failures)"""
     from biodivine_aeon import BooleanNetwork
@@ -145,7 +148,7 @@ def check_translation(rules_text, label):
                 fails.append(f"{label}: {nm} {dname}: a transition is not a read-arc implicant moving the token")
             disj = z3.Or([z3.And([var(k) if v else z3.Not(var(k)) for k, v in pre.items()]) for pre, _ in lst]) if lst else z3.BoolVal(False)
             s.push()
-            s.add(z3.Xor(disj, want))
+            s.add(z3.Xor(disj, z3.Not(want) if SELFTEST["on"] else want))    # selftest: vacuity twin
             r = s.check()
             q += 1
             if r == z3.sat:
@@ -381,6 +384,8 @@ def replay(rec):
     if rec.get("mode") == "sym":
         from checks import c10_sym
         return c10_sym.replay(rec)
+    if rec.get("selftest"):
+        SELFTEST["on"] = True
     r = _job(rec["job"])
     return {"reproduces": bool(r.get("fails")), "failing": r.get("fails", [])[:4], "signature": None}
 
@@ -410,7 +415,8 @@ def main(tier, seed, t0, selftest=False):
     for p in (paths[:25] if q else paths[:120]):
         jobs.append({"kind": "perc", "path": p, "max_nodes": 4 if q else 8})
     if selftest:
-        jobs = jobs[:3]
+        jobs = [j for j in jobs if j["kind"] == "model"][:3]
+        SELFTEST["on"] = True
     jobs.sort(key=lambda j: (0 if j["kind"] == "restrict" else 1, -os.path.getsize(j["path"]) if "path" in j else 0))
     ctx = mp.get_context("fork")
     with ctx.Pool(common.NCPU) as pool:
@@ -431,7 +437,7 @@ def main(tier, seed, t0, selftest=False):
     for job, f in fails[:3]:
         if job.get("kind") == "small":
             continue
-        v = common.replay_record(PROP, {"property": PROP, "job": job, "first_failure": f})
+        v = common.replay_record(PROP, {"property": PROP, "job": job, "first_failure": f, "selftest": selftest})
         if v.get("reproduces"):
             violations.append(v)
     if fails and not violations:
